@@ -41,6 +41,7 @@ type BkmOp struct {
 type BkmCase struct {
 	Files     map[string]string `json:"files"` // relative path -> content
 	NoCfgDir  bool              `json:"no_cfg_dir,omitempty"`
+	CfgVia    string            `json:"cfg_via,omitempty"` // how the config folder is found: "" = $KLOG_CONFIG_HOME, "xdg" = $XDG_CONFIG_HOME/klog, "home" = $HOME/.config/klog
 	BaseUnix  int64             `json:"base_unix"`
 	Ops       []BkmOp           `json:"ops"`
 }
@@ -64,6 +65,7 @@ func (bkmEngine) generate(property string, seed int64, index int, tier string) *
 	r := newRng(seed, "bkm", property, fmt.Sprint(index))
 	today := time.Date(2024, 5, 17, 10, 0, 0, 0, time.UTC)
 	bc := &BkmCase{Files: map[string]string{}, NoCfgDir: r.Chance(1, 3), BaseUnix: today.Unix()}
+	bc.CfgVia = r.Pick([]string{"", "", "", "xdg", "home"})
 	for _, f := range []string{"w.klg", "x.klg", "🙂 dir/e.klg", "sub dir/w.klg", "other/x.klg", "sub dir/ü file.klg", "q'uo\"te.klg"} {
 		d := genDoc(r, docOpts{today: today, maxRecords: 2})
 		bc.Files[f] = d.render()
@@ -81,6 +83,8 @@ func (bkmEngine) generate(property string, seed int64, index int, tier string) *
 	for len(names) < r.Range(2, 8) {
 		names = append(names, bkmNames[r.Intn(len(bkmNames))])
 	}
+	lastSet := map[string]string{} // name -> file of the latest `set` (whether or not it will succeed)
+	sibling := map[string]string{"w.klg": "sub dir/w.klg", "sub dir/w.klg": "w.klg", "x.klg": "other/x.klg", "other/x.klg": "x.klg"}
 	for i := 0; i < n; i++ {
 		op := BkmOp{Alias: r.Chance(1, 8), Tape: r.Tape(24, 64), MapTape: r.Tape(12, 7)}
 		name := names[r.Intn(len(names))]
@@ -89,6 +93,7 @@ func (bkmEngine) generate(property string, seed int64, index int, tier string) *
 			op.Kind = "set"
 			op.Name = name
 			op.File = bkmFiles[r.Intn(len(bkmFiles))]
+			lastSet[normName(name)] = op.File
 			if strings.HasPrefix(op.File, "new") || op.File == "nodir/n.klg" {
 				op.Create = r.Chance(2, 3)
 			} else {
@@ -129,8 +134,18 @@ func (bkmEngine) generate(property string, seed int64, index int, tier string) *
 				// a relative FILE argument that happens to be spelled like a bookmark name
 				op.Name = r.Pick([]string{"work", "Work", "z", "default", "privat"})
 				op.Plain = true
-			} else if op.Name != "" && r.Chance(1, 3) {
-				op.Extra = r.Pick([]string{"w.klg", "x.klg", "sub dir/w.klg"})
+			} else if op.Name != "" && r.Chance(1, 2) {
+				op.Extra = r.Pick([]string{"w.klg", "x.klg", "sub dir/w.klg", "other/x.klg"})
+				if sib := sibling[lastSet[normName(name)]]; sib != "" && r.Chance(1, 2) {
+					op.Extra = sib // another file with the same base name in another directory
+				} else if r.Chance(1, 2) {
+					// a second bookmark in the same invocation
+					n2 := names[r.Intn(len(names))]
+					if n2 == "" {
+						n2 = "default"
+					}
+					op.Extra = "@" + strings.TrimPrefix(n2, "@")
+				}
 				op.ExtraFirst = r.Chance(1, 2)
 			}
 		}
@@ -225,10 +240,14 @@ func (op *BkmOp) argv(root string) []string {
 			return []string{"json", op.Name}
 		}
 		if op.Extra != "" {
-			if op.ExtraFirst {
-				return []string{"json", filepath.Join(root, op.Extra), op.Name}
+			extra := filepath.Join(root, op.Extra)
+			if strings.HasPrefix(op.Extra, "@") {
+				extra = op.Extra
 			}
-			return []string{"json", op.Name, filepath.Join(root, op.Extra)}
+			if op.ExtraFirst {
+				return []string{"json", extra, op.Name}
+			}
+			return []string{"json", op.Name, extra}
 		}
 		return []string{"json", op.Name}
 	}
@@ -332,6 +351,51 @@ func mapString(m map[string]string) string {
 	return b.String()
 }
 
+// extraPath resolves the additional argument of a resolve operation: a second bookmark or a plain path.
+func extraPath(op *BkmOp, model map[string]string, root string) (string, bool) {
+	if strings.HasPrefix(op.Extra, "@") {
+		p, ok := model[normName(op.Extra)]
+		return p, ok
+	}
+	return filepath.Join(root, op.Extra), true
+}
+
+// resolvedContentMismatch compares the records of a successful `klog json <files...>` with the harness's own
+// reading of these files. "" = agrees (or not judged: a file the harness cannot parse).
+func resolvedContentMismatch(paths []string, stdout string) string {
+	var want []string
+	for _, p := range paths {
+		b, err := os.ReadFile(p)
+		if err != nil {
+			return ""
+		}
+		ds := parseSerialDumpRecords(string(b))
+		if ds == nil {
+			return ""
+		}
+		for _, d := range ds {
+			want = append(want, fmt.Sprintf("%s %q", d.DateText, strings.Join(d.Summary, "\n")))
+		}
+	}
+	var env struct {
+		Records []struct {
+			Date    string `json:"date"`
+			Summary string `json:"summary"`
+		} `json:"records"`
+	}
+	if err := json.Unmarshal([]byte(stdout), &env); err != nil {
+		return "cannot decode the JSON output: " + shortText(stdout, 200)
+	}
+	var got []string
+	for _, r := range env.Records {
+		got = append(got, fmt.Sprintf("%s %q", r.Date, r.Summary))
+	}
+	if strings.Join(got, " | ") != strings.Join(want, " | ") {
+		return fmt.Sprintf("`klog json %s` shows the records [%s], the files hold [%s]", strings.Join(paths, " "), shortText(strings.Join(got, " | "), 300), shortText(strings.Join(want, " | "), 300))
+	}
+	return ""
+}
+
 func fileValid(path string) (exists bool, valid bool) {
 	b, err := os.ReadFile(path)
 	if err != nil {
@@ -361,11 +425,19 @@ func (bkmEngine) execute(sc *Scenario) *Outcome {
 		}
 	}
 	cfg := filepath.Join(root, "cfg")
+	env := map[string]string{"KLOG_CONFIG_HOME": cfg, "NO_COLOR": "1"}
+	switch bc.CfgVia {
+	case "xdg":
+		cfg = filepath.Join(root, "xdg", "klog")
+		env = map[string]string{"XDG_CONFIG_HOME": filepath.Join(root, "xdg"), "HOME": filepath.Join(root, "nohome"), "NO_COLOR": "1"}
+	case "home":
+		cfg = filepath.Join(root, "home", ".config", "klog")
+		env = map[string]string{"HOME": filepath.Join(root, "home"), "NO_COLOR": "1"}
+	}
 	if !bc.NoCfgDir {
 		_ = os.MkdirAll(cfg, 0o755)
 	}
 	db := filepath.Join(cfg, "bookmarks.json")
-	env := map[string]string{"KLOG_CONFIG_HOME": cfg, "NO_COLOR": "1"}
 	clock := time.Unix(bc.BaseUnix, 0).UTC()
 	model := map[string]string{}
 	known := true // false: the database content is not judged until it is cleared
@@ -546,7 +618,9 @@ func (bkmEngine) execute(sc *Scenario) *Outcome {
 			} else if ex, _ := fileValid(p); !ex {
 				expectFail = true
 			} else if op.Extra != "" {
-				if ex2, _ := fileValid(filepath.Join(root, op.Extra)); !ex2 {
+				if p2, ok2 := extraPath(op, model, root); !ok2 {
+					expectFail = true
+				} else if ex2, _ := fileValid(p2); !ex2 {
 					expectFail = true
 				}
 			}
@@ -635,17 +709,29 @@ func (bkmEngine) execute(sc *Scenario) *Outcome {
 			if op.Plain {
 				directArgv = []string{"json", filepath.Join(root, op.Name)}
 			}
+			paths := []string{directArgv[1]}
 			if op.Extra != "" {
+				p2, _ := extraPath(op, model, root)
 				if op.ExtraFirst {
-					directArgv = []string{"json", filepath.Join(root, op.Extra), model[name]}
+					paths = []string{p2, paths[0]}
 				} else {
-					directArgv = []string{"json", model[name], filepath.Join(root, op.Extra)}
+					paths = append(paths, p2)
 				}
+				directArgv = append([]string{"json"}, paths...)
 			}
 			direct := runProc(&ProcSpec{Argv: directArgv, Base: clock, Root: root, Cpus: 1, Env: env})
 			out.Procs++
 			if direct.Stdout != res.Stdout || direct.ExitCode != res.ExitCode {
 				report(i, op, argv, "resolve-differs", fmt.Sprintf("`klog json %s` and `klog json %s` differ: %q vs %q", op.Name, directArgv[1], shortText(res.Stdout, 200), shortText(direct.Stdout, 200)))
+			}
+			// ... and both must be the records of exactly these files, in the order of the arguments (the harness
+			// reads and parses the files itself: a fault shared by both runs does not hide)
+			if msg := resolvedContentMismatch(paths, res.Stdout); msg != "" {
+				report(i, op, argv, "resolve-content", msg)
+			}
+			out.stat("resolve_content_checked", 1)
+			if len(paths) > 1 && paths[0] != paths[1] && filepath.Base(paths[0]) == filepath.Base(paths[1]) {
+				out.stat("resolve_same_base_name_two_files", 1)
 			}
 		case "set":
 			if op.Create {
@@ -733,6 +819,9 @@ func (bkmEngine) shrink(sc *Scenario) []*Scenario {
 				c.Ops[i].Alias, c.Ops[i].Quiet, c.Ops[i].Cpus, c.Ops[i].Tape, c.Ops[i].MapTape = false, false, 0, nil, nil
 			})
 		}
+	}
+	if bc.CfgVia != "" {
+		add(func(c *BkmCase) { c.CfgVia = "" })
 	}
 	if bc.NoCfgDir {
 		add(func(c *BkmCase) { c.NoCfgDir = false })
